@@ -5,14 +5,15 @@ from m5check import run_property
 
 SEC, MS = m5.SEC, m5.MS
 BEH = ["reply", "reply", "delay:%d" % (500 * MS), "delay:%d" % (1 * SEC - 1), "delay:%d" % (1 * SEC), "delay:%d" % (1 * SEC + 1),
-       "delay:%d" % (3 * SEC - 1), "delay:%d" % (3 * SEC), "delay:%d" % (3 * SEC + 1), "delay:%d" % (8 * SEC), "hang", "hang", "upgrade", "upgrade"]
+       "delay:%d" % (3 * SEC - 1), "delay:%d" % (3 * SEC), "delay:%d" % (3 * SEC + 1), "delay:%d" % (8 * SEC), "hang", "hang", "upgrade", "upgrade",
+       "upgrade:%d" % (500 * MS), "upgrade:%d" % (2 * SEC)]
 PROFILES = [
-    {"requests": 2.5, "deploys": 1.5, "pause": 1.2, "rollout": 0.3, "remove": 0, "flap": 0.1, "flap_targets": False, "behaviours": BEH,
-     "fail_deploys": 0.1, "yields": 0.8, "initial_all": True, "drain_timeouts": [0, 1, 1 * SEC, 3 * SEC, 3 * SEC],
+    {"requests": 2.5, "deploys": 1.5, "pause": 1.2, "rollout": 0.3, "remove": 0, "flap": 0.4, "flap_targets": False, "behaviours": BEH,
+     "fail_deploys": 0.1, "yields": 0.8, "initial_all": True, "cooldown": 9 * SEC, "actions": (25, 70), "drain_timeouts": [0, 1, 1 * SEC, 3 * SEC, 3 * SEC],
      "points": ["req:routed", "req:gate-passed", "req:lb-picked", "req:claimed", "deploy:installed", "drain:marked",
                 "pause:gate-set", "probe:applied"]},
     {"requests": 3.0, "deploys": 2.0, "pause": 1.0, "rollout": 0.0, "remove": 0, "flap": 0, "flap_targets": False, "behaviours": BEH,
-     "fail_deploys": 0.0, "yields": 0.0, "services": [b"web"], "initial_all": True, "drain_timeouts": [0, 1 * SEC, 3 * SEC]},
+     "fail_deploys": 0.0, "yields": 0.0, "services": [b"web"], "initial_all": True, "cooldown": 9 * SEC, "actions": (25, 70), "drain_timeouts": [0, 1 * SEC, 3 * SEC]},
 ]
 
 
@@ -38,7 +39,8 @@ def run(tier, seed):
         "C03", tier, seed, "C03.v", "C03corr", "c03_check", PROFILES, n_quick=36, n_thorough=1200,
         codes={"1": "a request was still being served by a drained target when the command returned (not cut off)",
                "2": "a request was sent to a drained target after the command returned",
-               "3": "a request was cut off before mark + drain timeout", "4": "a cut-off request was not answered 504"},
+               "3": "a request was cut off before mark + drain timeout", "4": "a cut-off request was not answered 504",
+               "5": "a request a drain had cut off (upgraded: when draining began; others: at the deadline) was still being served afterwards"},
         finding_id="C03-D2D3-stale-request",
         finding_what="a request that was already routed (deploy) / past the pause gate (pause, stop) when the command switched the "
                      "table / the gate reaches a drained target after the command returned",
@@ -46,4 +48,6 @@ def run(tier, seed):
                      "'cut off' = the proxy cancelled the request context; how fast net/http then closes the upstream connection is not modelled",
                      "upgraded connections are in-memory (an upgraded request = the target answered 101 and the proxy took the client connection over)",
                      "overlapping commands on one service (second Drain returns at once) are outside the property's quantifier"],
-        forced=[forced.d2_served_by_replaced(), forced.d3_served_while_paused(), forced.pause_drains_stopped_rollout(), forced.drain_grants_the_drain_timeout()], extra=race_stress)
+        forced=[forced.d2_served_by_replaced(), forced.d3_served_while_paused(), forced.pause_drains_stopped_rollout(), forced.drain_grants_the_drain_timeout(),
+                forced.drain_covers_unhealthy_targets(), forced.pause_covers_unhealthy_targets(),
+                forced.drain_cuts_connections_upgraded_during_the_drain()], extra=race_stress)
